@@ -153,7 +153,7 @@ impl Prop for C17 {
             Leg {
                 name: "random",
                 kind: LegKind::Random {
-                    cases: tier.pick(400, 5000),
+                    cases: tier.pick(2400, 12000),
                 },
                 workers: 16,
                 build: Build::Normal,
